@@ -34,8 +34,8 @@ class Bad:
 
 def kinds_for(schema, fdef, natural=None):
     """applicable failure kinds for a field of this declared type -> list of (kind label, fault, value)"""
-    out = [("raise", "raise", None), ("raise_te", "raise_te", None), ("return_exc", "return_exc", None),
-           ("null", "none", None)]
+    out = [("raise", "raise", None), ("raise_te", "raise_te", None), ("raise_te_ctor", "raise_te_ctor", None),
+           ("return_exc", "return_exc", None), ("null", "none", None)]
     t = fdef.type
     core = t[1] if t[0] == "nn" else t
     if core[0] == "list":
@@ -136,6 +136,9 @@ def judge(exp, resp, faults):
         kind = faults.get(p)
         if kind == "raise_te" and any(c[0] == p for c in exp.calls):  # only if the resolver was reached (arguments coerced)
             if e["message"] != "user message %s" % (list(p),) or e.get("extensions") != {"code": "E42", "where": list(p)}:
+                return "user-message-or-extensions-lost"
+        if kind == "raise_te_ctor" and any(c[0] == p for c in exp.calls):
+            if e["message"] != "ctor user message %s" % (list(p),) or e.get("extensions") != {"code": "CTOR", "where": list(p)}:
                 return "user-message-or-extensions-lost"
     for n in exp.nulled:
         if not any(p[:len(n)] == n for p in seen):
